@@ -1,9 +1,10 @@
 import LhasaV.Driver.OpsCrc
 import LhasaV.Driver.OpsHeader
+import LhasaV.Driver.OpsDecoder
 /-! `lhv`: one operation per input line, one canonical result line per operation. -/
 namespace LhasaV.Driver
 
-def dispatchers : List (List String → Option String) := [opCrc, opHeader]
+def dispatchers : List (List String → Option String) := [opCrc, opHeader, opDecoder]
 
 def runLine (line : String) : String :=
   let toks := (line.trimAscii.toString.splitOn " ").filter (· ≠ "")
